@@ -1,6 +1,6 @@
 (* C12 — strand symmetry: reverse-complemented inputs give the reverse complement.
    Statements only. *)
-From MV Require Import Base RotLemmas Record RecordLemmas Regex Typing TypingLemmas Anchors Canonical StrandLemmas.
+From MV Require Import Base RotLemmas Record RecordLemmas Regex Typing TypingLemmas Anchors Canonical Assembly StrandLemmas.
 Local Open Scope nat_scope.
 
 (* the recognition site occurs once on the reverse complement iff its reverse complement
@@ -37,6 +37,45 @@ Theorem C12_module : forall e (S X O5 : list letter) t0 tmid tl (O3 Y R B : list
     (true, Some (rc O3), Some (rc O5), Some (rc O3 ++ rc T), Some (rc O3 ++ rc T)).
 Proof. exact strand_module. Qed.
 Print Assumptions C12_module.
+
+(* the same for the generic vector class: upstream and downstream overhangs exchanged and
+   reverse-complemented, the backbone (target body) reverse-complemented *)
+Theorem C12_vector : forall e bl (Odn Y R P S X Oup : list letter) bf (Bmid : list letter) k,
+  map lcode S = esite e -> map lcode R = rc_codes (esite e) -> 0 < length (esite e) ->
+  length X = eoff e -> length Y = eoff e -> length Odn = eovh e -> length Oup = eovh e ->
+  Forall nucl X -> Forall nucl Y -> Forall nucl P -> Forall nucl Odn -> Forall nucl Oup -> nucl bl -> nucl bf ->
+  let s0 := [bl] ++ Odn ++ Y ++ R ++ P ++ S ++ X ++ Oup ++ [bf] ++ Bmid in
+  occurs_once (esite e) s0 -> occurs_once (rc_codes (esite e)) s0 ->
+  observe (C RVector e (vector_structure e)) (rotr k s0) =
+    (true, Some Oup, Some Odn, Some (Oup ++ [bf] ++ Bmid ++ [bl]), Some (Odn ++ Y ++ R ++ P ++ S ++ X)) /\
+  observe (C RVector e (vector_structure e)) (rotr k (rc s0)) =
+    (true, Some (rc Odn), Some (rc Oup), Some (rc Odn ++ [compl_l bl] ++ rc Bmid ++ [compl_l bf]),
+     Some (rc Oup ++ rc X ++ rc S ++ rc P ++ rc R ++ rc Y)).
+Proof. exact strand_vector. Qed.
+Print Assumptions C12_vector.
+
+(* assembly level. A module / vector is given by what it reports (overhangs o5/o3 or up/dn, body);
+   `rc_smod` / `rc_svec` is what its reverse complement reports (C12_module / C12_vector).
+   If the modules chain from the vector's downstream to its upstream overhang (all used), the
+   overhang sets of both strands are clash-free and neither walk meets its stop overhang early,
+   then assembling the reverse complements succeeds with the modules in the opposite order and
+   its product is, up to letter case at the junction overhangs, a rotation of the reverse
+   complement of the original product *)
+Theorem C12_assembly : forall (v : svec) (cs ms : list smod),
+  Permutation.Permutation ms cs -> NoDup (map sid ms) ->
+  path (okey (sdn v)) (map keys_of cs) (okey (sup v)) ->
+  okey (sup v) <> okey (sdn v) ->
+  Forall (fun m => okey (so5 m) <> okey (sup v)) cs ->
+  Forall (fun m => okey (so3 m) <> okey (sdn v)) cs ->
+  AssemblyLemmas.clash_free rc_codes (map tmod_of ms) ->
+  AssemblyLemmas.clash_free rc_codes (map tmod_of (map rc_smod ms)) ->
+  let w := concat (map frag cs) ++ (sup v ++ svbody v) in
+  let w' := concat (map frag_rc (rev cs)) ++ (rc (sdn v) ++ rc (svbody v)) in
+  Assembly.dna_assemble (tvec_of v) (map tmod_of ms) = Assembly.Product w (map sid cs) [] /\
+  Assembly.dna_assemble (tvec_of (rc_svec v)) (map tmod_of (map rc_smod ms)) = Assembly.Product w' (map sid (rev cs)) [] /\
+  same_codes w' (rotl (Z.of_nat (length (rc (svbody v)))) (rc w)).
+Proof. exact strand_assembly. Qed.
+Print Assumptions C12_assembly.
 
 (* reverse complement commutes with rotation (C14) *)
 Theorem C12_rc_rot : forall k s, rc (rotr k s) = rotl k (rc s).
